@@ -37,22 +37,26 @@ def analyse(p, upto='liveness'):
     a = Analysed()
     a.p = p
     a.src, a.lm = mp.render(p)
-    node = ast.parse(a.src).body[0]
-    info = transformer.EntityInfo(name=p['fns'][0]['name'], source_code=a.src, source_file=None,
-                                  future_features=(), namespace={})
-    ctx = transformer.Context(info, naming.Namer({}), None)
-    a.graphs = cfg.build(node)
-    a.rd_analyzers, a.live_analyzers = [], []
-    if upto != 'cfg':
-        node = qual_names.resolve(node)
-        node = activity.resolve(node, ctx, None)
-        with _capture(reaching_definitions.Analyzer, 'visit_forward', a.rd_analyzers):
-            node = reaching_definitions.resolve(node, ctx, a.graphs)
-        node = reaching_fndefs.resolve(node, ctx, a.graphs)
-        with _capture(liveness.Analyzer, 'visit_reverse', a.live_analyzers):
-            node = liveness.resolve(node, ctx, a.graphs)
-    a.tree = node
     a.byname = {f['name']: i + 1 for i, f in enumerate(p['fns'])}
+    a.graphs = {}
+    a.rd_analyzers, a.live_analyzers = [], []
+    a.trees = []          # (analysed tree, function id) of the function under test and of every module-level function
+    for node in ast.parse(a.src).body:      # each is analysed on its own, as it is when it is converted
+        info = transformer.EntityInfo(name=node.name, source_code=a.src, source_file=None,
+                                      future_features=(), namespace={})
+        ctx = transformer.Context(info, naming.Namer({}), None)
+        graphs = cfg.build(node)
+        a.graphs.update(graphs)
+        if upto != 'cfg':
+            node = qual_names.resolve(node)
+            node = activity.resolve(node, ctx, None)
+            with _capture(reaching_definitions.Analyzer, 'visit_forward', a.rd_analyzers):
+                node = reaching_definitions.resolve(node, ctx, graphs)
+            node = reaching_fndefs.resolve(node, ctx, graphs)
+            with _capture(liveness.Analyzer, 'visit_reverse', a.live_analyzers):
+                node = liveness.resolve(node, ctx, graphs)
+        a.trees.append((node, a.byname[node.name]))
+    a.tree = [t for t, fid in a.trees if fid == 1][0]
     a.N = len(p['nodes'])
     return a
 
@@ -135,7 +139,8 @@ def try_ids(a):
                 walk_block(s.body, d['body'])
             elif isinstance(s, ast.FunctionDef):
                 walk_block(s.body, a.p['fns'][d['f'] - 1]['body'])
-    walk_block(a.tree.body, a.p['fns'][0]['body'])
+    for tree, fid in a.trees:
+        walk_block(tree.body, a.p['fns'][fid - 1]['body'])
     return out
 
 
@@ -337,7 +342,8 @@ def dataflow_claims(a):
                 out[fid - 1]['defin'][k - 1] = sorted(_qn(q) for q in anno.getanno(n, anno.Static.DEFINED_VARS_IN))
                 out[fid - 1]['hasdefin'][k - 1] = 1
             super().generic_visit(n)
-    V().visit(a.tree)
+    for tree, fid in a.trees:
+        V().visit(tree)
     # merge duplicate (name, defs) claims of one node
     for o in out:
         for i, lst in enumerate(o['defs']):
